@@ -12,11 +12,11 @@ LEVEL = "model_checking"
 RULE = (
     "deviation-bounded DFS over server behaviours on the ISD_KEY connection, played against the real client through ncrypt_unprotect_secret / async_ncrypt_unprotect_secret: one choice per client PDU "
     "(bind, each alter_context): ack of the right type x result vector {(accept,negotiate_ack),(accept,reject),(reject,negotiate_ack),(reject,accept)} x token {next server token, none} | ack of the wrong type | "
-    "bind_nak | fault | response | EOF (13 options); for the request: sealed response | fault | bind_ack | EOF; one script-level choice: header-sign flag in the server's acks {set, clear}. x 11 scripted "
+    "bind_nak | fault | response | EOF (13 options); for the request: sealed response | fault | bind_ack | EOF; one script-level choice: header-sign flag pattern of the server's acks {always set, never, clear in the first ack then set, set in the first ack then clear}. x 11 scripted "
     "authentication providers (1..4 legs; final empty token; completion only after one more server token). Default = the well-behaved server; deviation bound 2 (quick) / 3 (thorough) plus the full tree for the "
     "2-leg provider. Invariants on every execution: I1 tokens in client PDUs == provider's non-empty outputs in order, first in bind, rest in alter_context; I2 step inputs == server tokens in arrival order; "
-    "I3 no step/alter_context after completion, none for an empty token; I4 request only on an accepted context after a clean handshake, level 6, provider's auth type; I5 sign_only buffers iff both sides "
-    "advertised header signing; I6 nak/fault/unexpected type/EOF/rejection of the desired context => exception, never a plaintext; I7 termination in the step budget, alter_contexts <= provider legs. "
+    "I3 no step/alter_context after completion, none for an empty token; I4 request only on an accepted context after a clean handshake, level 6, provider's auth type; I5 sign_only buffers must be used when every client bind/alter PDU and every ack advertised header signing, and must not be used when no ack advertised it or the client's first or last "
+    "bind/alter PDU did not (mixed cases where the text leaves room accept either); I6 nak/fault/unexpected type/EOF/rejection of the desired context => exception, never a plaintext; I7 termination in the step budget, alter_contexts <= provider legs. "
     "state = choice-tree node (prefix of server answers); transition = one client PDU answered."
 )
 ASSUME = ["scripted provider and scripted peer: only the enumerated behaviours are covered", "the EPM hop runs unscripted-correct (its failure modes are C18's)"]
@@ -54,7 +54,7 @@ def world(seed: int):
 class ScriptConn(refdc.Conn):
     def __init__(self, dc, ch: explorer.Chooser, sign_flag: bool, log: dict) -> None:
         super().__init__(dc, "isd", "dc", dc.isd_port)
-        self.ch, self.sign_flag, self.slog = ch, sign_flag, log
+        self.ch, self.sign_pattern, self.slog = ch, sign_flag, log
         self.ack_no = 0
         self.ctx = secctx.ScriptedContext([], 16, role="server")
 
@@ -66,7 +66,10 @@ class ScriptConn(refdc.Conn):
             k = self.ch.choose(len(ACK_MENU), "bind" if pt == rpc.BIND else "alter")
             act = ACK_MENU[k]
             self.slog["actions"].append(("bind" if pt == rpc.BIND else "alter", act))
-            flags = 3 | (rpc.PFC_SIGN if self.sign_flag else 0)
+            # header-sign flag per ack: 0 = always set, 1 = never, 2 = clear in the first ack then set, 3 = set in the first ack then clear
+            first = self.ack_no == 0
+            sflag = {0: True, 1: False, 2: not first, 3: first}[self.sign_pattern]
+            flags = 3 | (rpc.PFC_SIGN if sflag else 0)
             right = rpc.BIND_ACK if pt == rpc.BIND else rpc.ALTER_CONTEXT_RESP
             wrong = rpc.ALTER_CONTEXT_RESP if pt == rpc.BIND else rpc.BIND_ACK
             a = d["auth"] or dict(type=10, level=6, ctx=0)
@@ -77,6 +80,8 @@ class ScriptConn(refdc.Conn):
                 self.ack_no += 1
                 tok = b"S-TOK-%d" % self.ack_no if with_tok else None
                 self.slog["server_tokens"].append(tok)
+                if act[0] == "ack":
+                    self.slog["ack_sign_flags"].append(sflag)
                 if pt == rpc.BIND:
                     self.slog["bind_vector"] = vec if act[0] == "ack" else None
                     self.slog["client_sign_flag"] = bool(d["flags"] & rpc.PFC_SIGN)
@@ -97,7 +102,7 @@ class ScriptConn(refdc.Conn):
                 self.state = "READY"
                 self.auth_type = d["auth"]["type"] if d["auth"] else 10
                 self.auth_level = 6
-                self.sign_header = self.sign_flag and self.slog.get("client_sign_flag", False)
+                self.sign_header = True  # unseal() below tries both buffer typings; what the client used is judged by I5
                 self.accepted = {0: (rpc.ISD_KEY, rpc.NDR64)}
                 ev = self.log(dir="c2s", what="request", pdu=d, raw=raw)
                 return self.on_getkey(d, raw, ev)
@@ -109,6 +114,19 @@ class ScriptConn(refdc.Conn):
         return None
 
 
+    def unseal(self, d, raw, ev):
+        err = None
+        for sh in (True, False):
+            self.sign_header = sh
+            snap = (self.ctx.seq_in,)
+            try:
+                return super().unseal(d, raw, ev)
+            except Exception as e:  # noqa: BLE001
+                self.ctx.seq_in = snap[0]
+                err = e
+        raise err  # type: ignore[misc]
+
+
 class ScriptDC(refdc.DC):
     def __init__(self, rk, ch, log) -> None:
         super().__init__([rk], now=(361, 10, 12))
@@ -118,8 +136,8 @@ class ScriptDC(refdc.DC):
     def connect(self, host, port):
         if port == self.isd_port:
             if self.sign_flag is None:
-                self.sign_flag = self.ch.choose(2, "server-header-sign") == 0
-                self.slog["sign_flag"] = self.sign_flag
+                self.sign_flag = self.ch.choose(4, "server-header-sign-pattern")
+                self.slog["sign_pattern"] = self.sign_flag
             c = ScriptConn(self, self.ch, self.sign_flag, self.slog)
             self.conns.append(c)
             return c
@@ -134,7 +152,7 @@ def run_one(seed: int, api: str, prov, ch: explorer.Chooser):
 
     w = world(seed)
     name, tokens, complete_after = prov
-    log: t.Dict[str, t.Any] = dict(client_pdus=[], actions=[], server_tokens=[], provider=None)
+    log: t.Dict[str, t.Any] = dict(client_pdus=[], actions=[], server_tokens=[], provider=None, ack_sign_flags=[])
     dc = ScriptDC(w["rk"], ch, log)
 
     def factory(u, p, **kw):
@@ -258,12 +276,15 @@ def invariants(log: dict, prov) -> t.List[t.Tuple[str, dict]]:
         out.append(("liveness.default-script-failed", {"result": repr(val), "actions": repr(acts)}))
     # I5
     if p.wraps:
-        both = bool(log.get("client_sign_flag")) and bool(log.get("sign_flag"))
+        a_c = [bool(d["flags"] & rpc.PFC_SIGN) for d in pdus if d["ptype"] in (rpc.BIND, rpc.ALTER_CONTEXT)]
+        a_s = list(log.get("ack_sign_flags", []))
+        must_sign = bool(a_c) and all(a_c) and bool(a_s) and all(a_s)
+        must_not = (not any(a_s)) or (not a_c) or (not a_c[0]) or (not a_c[-1])
         for wv in p.wraps:
             types = [ty for ty, _ in wv["iov"]]
             uses = siov.BufferType.sign_only in types
-            if uses != both:
-                out.append(("I5.header-signing", {"sign_only_used": uses, "client_advertised": log.get("client_sign_flag"), "server_flag": log.get("sign_flag")}))
+            if (uses and must_not) or (not uses and must_sign):
+                out.append(("I5.header-signing", {"sign_only_used": uses, "client_pdu_flags": a_c, "server_ack_flags": a_s}))
                 break
     return out
 
